@@ -40,9 +40,18 @@ pub fn gen_graph(t: &mut Tape) -> Prog {
     let nt = 2 + t.below(11) as usize;
     let ne = t.below(3) as usize;
     let mut prog = Prog::default();
+    // in a third of the programs some modules are children of others (g0/g1.pyxis next to g0.pyxis):
+    // a parent may then import its own child, and a child its parent
+    let nest = t.chance(1, 3);
     for i in 0..nm {
+        let mut path = vec![];
+        if nest && i > 0 && t.chance(1, 2) {
+            let j = t.below(i as u64) as usize;
+            path = prog.mods[j].path.clone();
+        }
+        path.push(format!("g{i}"));
         prog.mods.push(Mod {
-            path: vec![format!("g{i}")],
+            path,
             ..Default::default()
         });
     }
@@ -604,7 +613,7 @@ impl Prop for Graph {
         "C10/graph".into()
     }
     fn rule(&self) -> String {
-        "dependency graphs: 2-12 packed types (a quarter of them with a vftable block; in a third of the programs some share a short name across modules, so that the scoping rules decide the graph) and 0-2 enums in 1-4 modules; fields by value / in arrays / as #[base] / behind pointers, targets forward, backward, self, enums, undefined names; impl signatures and extern values over the same names; items shuffled inside modules. Oracle: build Ok iff the reference model binds every name and finds no by-value cycle; on Ok every declared type, enum, field, parameter, return type and extern value appears in the output with the expected fully qualified type (syn); on Err caused by fields only, the message names every stuck type path (whole token) and, inside its `failed on types: [...]` list, no resolvable one. Non-trivial: by-value chain >= 3 over >= 4 types, or any cycle, or any undefined name".into()
+        "dependency graphs: 2-12 packed types (a quarter of them with a vftable block; in a third of the programs some share a short name across modules, so that the scoping rules decide the graph) and 0-2 enums in 1-4 modules (in a third of the programs some modules are children of others); fields by value / in arrays / as #[base] / behind pointers, targets forward, backward, self, enums, undefined names; impl signatures and extern values over the same names; items shuffled inside modules. Oracle: build Ok iff the reference model binds every name and finds no by-value cycle; on Ok every declared type, enum, field, parameter, return type and extern value appears in the output with the expected fully qualified type (syn); on Err caused by fields only, the message names every stuck type path (whole token) and, inside its `failed on types: [...]` list, no resolvable one. Non-trivial: by-value chain >= 3 over >= 4 types, or any cycle, or any undefined name".into()
     }
     fn gen(&self, t: &mut Tape) -> Case {
         let w = if t.chance(1, 2) { 8 } else { 4 };
